@@ -1057,7 +1057,10 @@ def c16_oracle(m, shape, val):
             for (p, l, v) in attrs:
                 pv, lv, vv = val(p), val(l), (val(v) if v else [])
                 for (qp, ql) in names:
-                    if eq(qp, pv) and eq(ql, lv):
+                    # the XML tokenizer's duplicate check compares the *whole* new name with the local part of the earlier ones, so it
+                    # removes a repeated unprefixed name only; a repeated prefixed name (`a:x a:x`) does reach the tree builder,
+                    # whose expanded-name check must drop the second one - that case stays in scope
+                    if pv is None and qp is None and eq(ql, lv):
                         raise OutOfScope()
                 names.append((pv, lv))
                 if (pv is not None and eq(pv, XMLNS)) or (pv is None and eq(lv, XMLNS)):
